@@ -407,6 +407,20 @@ Proof.
       inversion H; subst rs rest; clear H. exact (IH _ _ _ _ E).
 Qed.
 
+(* REFUTED (as for UnpackDatagram): a well-framed plaintext record with an empty body is rejected
+   when it is the last one - and because of the CID-mismatch stop rule the records RETURNED for
+   one datagram can end in such a record, so what UnpackDatagram13 returns is not always accepted
+   by UnpackDatagram13 *)
+Theorem unpack13_zero_length_last_refuted :
+  let z := [26; 254; 253; 0; 0; 0; 0; 0; 0; 0; 0; 0; 0] in
+  let r1 := [60; 1; 0; 7; 0; 16] ++ repeat 170 16 in
+  let r2 := [60; 2; 0; 8; 0; 16] ++ repeat 187 16 in
+  well_framed false 0 z /\
+  unpack_datagram13 0 false true z = None /\
+  unpack_datagram13 1 true true (r1 ++ z ++ r2) = Some ([r1; z], r2) /\
+  unpack_datagram13 1 true true (r1 ++ z) = None.
+Proof. unfold well_framed. vm_compute. repeat split; lia. Qed.
+
 (* the CID-mismatch stop rule: with two records carrying different connection ids only the
    first is returned, the second (and everything after it) is dropped without an error *)
 Example unpack13_cid_mismatch_stops :
